@@ -265,8 +265,9 @@ def write_evidence(mod, prop, tier, seed, acc, wall, nviol, known_hits,
               violations=nviol)
     if errors:
         ev['coverage']['harness_errors'] = [e[-1500:] for e in errors][:5]
-    os.makedirs(os.path.join(VERIF, 'evidence'), exist_ok=True)
-    path = os.path.join(VERIF, 'evidence', f'{prop}.json')
+    evdir = os.environ.get('VERIF_EVIDENCE_DIR') or os.path.join(VERIF, 'evidence')
+    os.makedirs(evdir, exist_ok=True)
+    path = os.path.join(evdir, f'{prop}.json')
     tmp = path + '.tmp'
     with open(tmp, 'w') as f:
         json.dump(ev, f, indent=1, sort_keys=True)
